@@ -7,7 +7,7 @@
 (* observed answer.  Acceptance is non-blocking: every record is consumed, *)
 (* every mismatch is printed.                                              *)
 (***************************************************************************)
-EXTENDS AdfSem, Json, IOUtils, TLC
+EXTENDS AdfCompose, Json, IOUtils, TLC
 
 Rec == ndJsonDeserialize(IOEnv.TRACE)
 
@@ -53,9 +53,35 @@ Check(r) ==
             \/ PrintT(<<"MISMATCH", l, r.id, "C05", t.c, t.b, t.h>>)
      /\ PrintT(<<"INFO", l, r.id, nontriv, Cardinality(ST), Cardinality(TW)>>)
 
+\* composed frameworks (10-16 statements): same calls, judged by the composition theorem of AdfCompose; the claimed
+\* decomposition is verified on the logged ASTs first (a wrong claim is the harness's fault: BADRECORD, never a verdict)
+CallOKBig(call, r, bs, G) ==
+  LET EO(sel) == ExactlyOnceC(call.r, r.n, r.asts, r.blocks, r.observers, bs, sel) IN
+  /\ call.st = "ok"
+  /\ CASE call.c = "grounded"    -> call.r = <<G>>
+       [] call.c = "complete"    -> EO("co") /\ Len(call.r) >= 1 /\ call.r[1] = G
+       [] call.c \in {"twoval_chan", "twoval_chan_b"} -> EO("tw") /\ call.ch = "disconnected"
+       [] call.c \in {"ng_chan", "ng_chan_b"}         -> EO("st") /\ call.ch = "disconnected"
+       [] OTHER                  -> EO("st")
+
+CheckBig(r) ==
+  IF ~ValidDecomp(r.asts, r.n, r.blocks, r.observers) THEN PrintT(<<"BADRECORD", l, r.id, "not a decomposition">>)
+  ELSE
+  LET bs == IF Needs(r, {"complete"}) THEN BlockSem(r.asts, r.blocks) ELSE BlockSemLight(r.asts, r.blocks)
+      G  == GroundedC(r.asts, r.n, r.blocks, r.observers, bs)
+      nst == CountC(bs, "st", 1)
+      ntw == CountC(bs, "tw", 1)
+  IN /\ (r.names = r.labels \/ PrintT(<<"MISMATCH", l, r.id, r.prop, "names", "-", "-">>))
+     /\ \A i \in DOMAIN r.calls :
+          LET call == r.calls[i] IN
+          CallOKBig(call, r, bs, G)
+            \/ PrintT(<<"MISMATCH", l, r.id, PropOf(call.c), call.c, call.b, call.h>>)
+     /\ PrintT(<<"INFO", l, r.id, (G # AllU(r.n) /\ ~IsTwoValued(G, r.n)) \/ ntw >= 1, nst, ntw>>)
+
 Init == l = 1
 Next == /\ l <= Len(Rec)
-        /\ (Rec[l].kind # "adf" \/ Check(Rec[l])) \in BOOLEAN   \* value context: TLC must not split the disjunctions inside
+        /\ (IF Rec[l].kind = "adf" THEN Check(Rec[l])
+            ELSE IF Rec[l].kind = "adfbig" THEN CheckBig(Rec[l]) ELSE TRUE) \in BOOLEAN   \* value context: TLC must not split the disjunctions inside
         /\ l' = l + 1
 Spec == Init /\ [][Next]_l
 
